@@ -829,7 +829,7 @@ func (db *DB) Close(ctx context.Context) (err error) {
 	}
 	defer db.execSem.Release(1)
 	if verifEnabled {
-		verifTrace("close.locked")
+		verifTrace("close.locked", db.path)
 	}
 
 	// Perform a final db sync, if initialized.
@@ -850,7 +850,7 @@ func (db *DB) Close(ctx context.Context) (err error) {
 	}
 
 	if verifEnabled {
-		verifTrace("close.synced")
+		verifTrace("close.synced", db.path)
 	}
 	// Release the read lock to allow other applications to handle checkpointing.
 	if db.rtx != nil {
@@ -1938,7 +1938,7 @@ func (db *DB) newSyncExecutor(ctx context.Context) (*syncExecutor, error) {
 	defer db.mu.Unlock()
 
 	if verifEnabled {
-		verifTrace("exec.new")
+		verifTrace("exec.new", db.path)
 	}
 	if err := db.init(ctx); err != nil {
 		return nil, err
@@ -2497,7 +2497,7 @@ func (db *DB) checkpointWithExecutor(ctx context.Context, mode string, exec *syn
 	}
 	exec.applySyncResult(result)
 	if verifEnabled {
-		verifTrace("chk.copied", mode)
+		verifTrace("chk.copied", db.path, mode)
 	}
 
 	var barrierTx *sql.Tx
@@ -2522,7 +2522,7 @@ func (db *DB) checkpointWithExecutor(ctx context.Context, mode string, exec *syn
 		}
 		exec.applySyncResult(result)
 		if verifEnabled {
-			verifTrace("chk.sealed", mode)
+			verifTrace("chk.sealed", db.path, mode)
 		}
 	}
 
@@ -2540,14 +2540,14 @@ func (db *DB) checkpointWithExecutor(ctx context.Context, mode string, exec *syn
 			s.lastSyncedWALOffset = exec.state.lastSyncedWALOffset
 		})
 	if verifEnabled {
-		verifTrace("chk.pre-exec", mode)
+		verifTrace("chk.pre-exec", db.path, mode)
 	}
 	walFrameN, err := db.execCheckpoint(ctx, mode)
 	if err != nil {
 		return false, err
 	}
 	if verifEnabled {
-		verifTrace("chk.post-exec", mode, walFrameN)
+		verifTrace("chk.post-exec", db.path, mode, walFrameN)
 	}
 
 	if barrierTx != nil {
@@ -2558,13 +2558,13 @@ func (db *DB) checkpointWithExecutor(ctx context.Context, mode string, exec *syn
 	}
 
 	if verifEnabled {
-		verifTrace("chk.pre-bump", mode)
+		verifTrace("chk.pre-bump", db.path, mode)
 	}
 	if err = db.bumpLitestreamSeq(ctx); err != nil {
 		return false, fmt.Errorf("bump litestream seq: %w", err)
 	}
 	if verifEnabled {
-		verifTrace("chk.bumped", mode)
+		verifTrace("chk.bumped", db.path, mode)
 	}
 
 	// If WAL hasn't been restarted, exit.
@@ -2684,7 +2684,7 @@ func (db *DB) execCheckpoint(ctx context.Context, mode string) (walFrameN int, e
 	}
 	defer func() { _ = db.acquireReadLock(ctx) }()
 	if verifEnabled {
-		verifTrace("chk.read-released", mode)
+		verifTrace("chk.read-released", db.path, mode)
 	}
 
 	// A non-forced checkpoint is issued as "PASSIVE". This will only checkpoint
